@@ -34,6 +34,7 @@ def run_patch(patch, props, strip=1):
             res[p] = {"rc": r.returncode, "rules": rules, "tail": r.stdout.strip().splitlines()[-1] if r.stdout.strip() else ""}
         return res
     finally:
+        subprocess.run(["python3", "-m", "qcheck.gc", s + "/repo"], cwd=VERIF)
         shutil.rmtree(s, ignore_errors=True)
 
 
